@@ -175,6 +175,19 @@ fn actor_body(sh: &Shared, states: &States, ai: usize, ops: &[Op], is_co: bool) 
             E_RET => return op.1 as i64,
             E_PANIC => panic!("mv-expected-panic-{ai}"),
             E_CANCELLED => {
+                // op.2 == 1: a value on the stack whose destructor reaches a yield point while
+                // the coroutine is unwound by the cancel (for a cancelled coroutine that yield
+                // returns at once; whatever it leaves behind must not reach the next coroutine
+                // on this stack)
+                struct YieldOnDrop(bool);
+                impl Drop for YieldOnDrop {
+                    fn drop(&mut self) {
+                        if self.0 {
+                            may::coroutine::yield_now();
+                        }
+                    }
+                }
+                let _y = YieldOnDrop(op.2 == 1);
                 *sh.cos[ai].lock().unwrap() = Some(may::coroutine::current());
                 sh.probe_done[ai].store(true, Ordering::SeqCst);
                 may::coroutine::park();
@@ -345,7 +358,7 @@ pub fn strategy(g: &GenCfg) -> BoxedStrategy<Case> {
     let ending = prop_oneof![
         4 => (0u32..1000).prop_map(|v| Op(E_RET, v, 0)),
         2 => Just(Op(E_PANIC, 0, 0)),
-        2 => (0u32..20_000).prop_map(|d| Op(E_CANCELLED, d, 0)),
+        2 => (0u32..20_000, 0u32..2).prop_map(|(d, y)| Op(E_CANCELLED, d, y)),
         2 => (1u32..2_000_000).prop_map(|d| Op(E_TIMEOUT, d, 0)),
         2 => (1u32..2_000_000).prop_map(|d| Op(E_BLOCKER_TIMEOUT, d, 0)),
     ];
